@@ -28,6 +28,12 @@ def build(world):
             I.await_hook = c09_c.interference
             I.loop_override = {(c09_c.FLUSH_Q, 0): c09_c.loop_contract()}
         units.append(Unit(f"{c09_c.FLUSH_Q}[{v[-2:]}][interfering]", c09_c.FLUSH_Q, c09_c.flush_contract(), receiver=cls, setup=setup))
+    # the callers of the release establish its precondition "the destination is flagged sleeping" (so that a racing send parks)
+    import ast
+    for name, q, ct, cls, case in hc.all_units(world):
+        f = world.functions.get(q)
+        if f is not None and q != c09_c.FLUSH_Q and any(isinstance(x, ast.Attribute) and x.attr == "_handle_sleep_buffer" for x in ast.walk(f.node)):
+            units.append(Unit(name, q, ct, receiver=cls, case=case))
     # guarantee side of the rely: what an application send may do to the shared buffer (outgoing set handler and Gateway.send)
     units += [u for u in gu.send_units(world) if "handle_set" in u.name or "Gateway.send[" in u.name]
     return units
@@ -37,8 +43,11 @@ def extra_checks(world):
     return [c09_c.park_is_atomic(world)]
 
 
-def native_race(version="2.2"):
-    """Replay: a listener flushing node 1's buffer while an application task sends a newer value for the same key."""
+def native_race(version="2.2", race_child=1, at_write=0, children=(1,)):
+    """One schedule: commands buffered for `children` of sleeping node 1; the listener releases them at a wake and is held
+    inside its write number `at_write`; meanwhile an application task sends a newer value for `race_child`; then one more wake.
+    Checks the property's clauses on the write log: per key the last line written is the last value sent, every line
+    written was sent, and no value is written more often than it was sent.  Returns (ok, description)."""
     import asyncio
     from pyvc import native
     native.import_repo()
@@ -50,48 +59,90 @@ def native_race(version="2.2"):
         gate = asyncio.Event()
         entered = asyncio.Event()
         orig = tr.write
+        count = [0]
 
         async def slow_write(line):
-            entered.set()
-            await gate.wait()
+            i = count[0]
+            count[0] += 1
+            if i == at_write and not gate.is_set():  # only the release's own write is held; a racing direct write passes
+                entered.set()
+                await gate.wait()
             await orig(line)
-        tr.write = slow_write
         node = Node(1, 17, version, sleeping=True)
-        node.add_child(1, 0)
+        for ch in set(children) | {race_child}:
+            node.add_child(ch, 0)
         gw.nodes[1] = node
-        await gw.send(Message(1, 1, 1, 0, 2, "old"))
+        sent = {}
+        for ch in children:
+            await gw.send(Message(1, ch, 1, 0, 2, f"old{ch}"))
+            sent.setdefault(ch, []).append(f"old{ch}")
+        tr.write = slow_write
         wake = "1;255;3;0;32;\n" if version == "2.2" else "1;255;3;0;22;5\n"
         tr.reads.append(wake)
         listener = asyncio.create_task(gw.listen().__anext__())
-        await entered.wait()
-        await gw.send(Message(1, 1, 1, 0, 2, "new"))  # parked while the flush is suspended in its write
+        try:
+            await asyncio.wait_for(entered.wait(), 2)
+        except asyncio.TimeoutError:
+            gate.set()
+            await asyncio.wait_for(listener, 2)
+            return None, None  # the release made fewer writes than at_write: no such schedule
+        await asyncio.wait_for(gw.send(Message(1, race_child, 1, 0, 2, "new")), 2)
+        sent.setdefault(race_child, []).append("new")
         gate.set()
-        await listener
+        await asyncio.wait_for(listener, 2)
         tr.reads.append(wake)
-        await gw.listen().__anext__()
-        return tr.writes
-    writes = native.run(scenario())
-    sets = [w for w in writes if w.startswith("1;1;1;0;2;")]
-    ok = bool(sets) and sets[-1] == "1;1;1;0;2;new\n"
-    return ok, writes
+        await asyncio.wait_for(gw.listen().__anext__(), 2)
+        return tr.writes, sent
+    try:
+        writes, sent = native.run(scenario())
+    except Exception as e:  # noqa: BLE001
+        return False, {"error": f"{type(e).__name__}: {e}"}
+    if writes is None:
+        return True, None
+    problems = []
+    for ch, vals in sent.items():
+        lines = [w for w in writes if w.startswith(f"1;{ch};1;0;2;")]
+        got = [w[len(f"1;{ch};1;0;2;"):].rstrip("\n") for w in lines]
+        if not got or got[-1] != vals[-1]:
+            problems.append(f"child {ch}: last sent {vals[-1]!r}, written {got}")
+        for g in set(got):
+            if g not in vals:
+                problems.append(f"child {ch}: {g!r} written but never sent")
+            elif got.count(g) > vals.count(g):
+                problems.append(f"child {ch}: {g!r} written {got.count(g)} times, sent {vals.count(g)} times")
+    return (not problems), {"version": version, "buffered_children": list(children), "racing_send_to_child": race_child,
+                           "held_in_release_write": at_write, "writes": writes, "problems": problems}
+
+
+SCHEDULES = [((1,), 1, 0), ((0, 1), 0, 0), ((0, 1), 1, 0), ((0, 1), 0, 1), ((0, 1), 1, 1), ((0, 1), 2, 0), ((0, 1), 2, 1),
+             ((0, 1, 2), 2, 0), ((0, 1, 2), 0, 2), ((0, 1, 2), 1, 1)]
+
+
+def native_sweep(versions=("2.0", "2.1", "2.2")):
+    n = 0
+    for v in versions:
+        for children, race, at in SCHEDULES:
+            ok, info = native_race(v, race, at, children)
+            n += 1
+            if not ok:
+                return info, n
+    return None, n
 
 
 def replay(world, ob):
     from pyvc import native
     v = native.unit_version(ob["unit"].replace("[interfering]", "")) or "2.2"
-    ok, writes = native_race(v)
-    return {"confirmed": not ok, "schedule": "listener suspended in the first flush write; application send('new') for the same key; resume; second wake",
-            "writes": writes, "expected_last_set": "1;1;1;0;2;new"}
+    bad, n = native_sweep((v,))
+    if bad is None:
+        bad, n = native_sweep()
+    return dict(bad, confirmed=True, native_runs=n) if bad else {"confirmed": False, "native_runs": n}
 
 
 def bounded(world, tier, seed, rep):
-    bad = None
-    for v in ("2.0", "2.1", "2.2"):
-        ok, writes = native_race(v)
-        if not ok and bad is None:
-            bad = {"version": v, "writes": writes}
-    return {"label": "bounded", "scope": "one schedule per 2.x version: send for a buffered key during the suspended flush write, then a second wake",
-            "evaluations": 3, "native_failure": bad}
+    bad, n = native_sweep()
+    return {"label": "bounded", "scope": f"{len(SCHEDULES)} schedules per 2.x version: 1-3 buffered keys, the listener held in release write #0..2, "
+                                         "one racing send for a written / pending / new key, then a second wake",
+            "evaluations": n, "native_failure": bad}
 
 
 def bounded_search(world, unit_name):
